@@ -85,6 +85,25 @@ func b2(ok bool) []byte {
 	return []byte{0}
 }
 
+// schedRand stands in for the process-wide entropy source while tasks are scheduled. The
+// real crypto/rand.Reader may be read by any number of goroutines; this device is read by
+// one task at a time (the scheduler runs one task at a time) but without any synchronisation
+// the race detector could see, so its accesses are hidden from the detector. Which task draws
+// which bytes depends on the schedule: no op's result may depend on them.
+type schedRand struct{ s uint64 }
+
+//go:norace
+func (r *schedRand) Read(b []byte) (int, error) {
+	for i := range b {
+		r.s += 0x9e3779b97f4a7c15
+		z := r.s
+		z = (z ^ (z >> 30)) * 0xbf58476d1ce4e5b9
+		z = (z ^ (z >> 27)) * 0x94d049bb133111eb
+		b[i] = byte((z ^ (z >> 31)) >> 24)
+	}
+	return len(b), nil
+}
+
 func msgOf(a uint64) []byte { return []byte(fmt.Sprintf("message-%d", a%5)) }
 
 func blsFam[K bls.KeyGroup](name string) famDef {
@@ -545,6 +564,7 @@ func init() {
 	reg(registryFam(), 6)
 	reg(tknFam(), 2)
 	reg(coldFam(), 8)
+	reg(blindFam(), 4)
 	reg(groupFam(group.P256, "P256"), 6)
 	reg(groupFam(group.Ristretto255, "ristretto255"), 4)
 	// a Prio3 instance keeps a mutable XOF state and is owned by one party: it is neither a
@@ -684,7 +704,7 @@ func exec(planJSON []byte, run *core.Run) {
 			}
 		}
 	}
-	rand.Reader = core.NewStream(p.Seed + 3)
+	rand.Reader = &schedRand{s: p.Seed + 3}
 	comp := "sched[" + f.name + "]"
 	run.T(f.name)
 	nt := len(p.Tasks)
